@@ -199,6 +199,11 @@ def define_entity(draw, M, kind, n, sols_now):
                 c["rate"] = "r_unguarded"
         seen = set()
         d["comps"] = [c for c in d["comps"] if not (c["rate"] in seen or seen.add(c["rate"]))]
+        d["cvode"] = False               # CVODE together with a surface / gas phase can take minutes per step
+        if "times" in d:                 # keep the integration short: at most 1000 s per step
+            d["times"] = [float("%.3g" % min(t, 1000.0 * (i + 1))) for i, t in enumerate(d["times"])]
+        else:
+            d["total"] = float("%.3g" % min(d["total"], 1000.0 * d["n"]))
         return CG.render_kin(d, n)
     if kind == "reaction":
         r = draw(CG.reaction(DB, False))
